@@ -66,12 +66,14 @@ InReach(inp, S, n) == LET RECURSIVE R(_, _)
 OnCycle(inp, e) == e[1] \in InReach(inp, {e[2]}, Cardinality(inp.types))
 CyclesInside(inp, g) == \A e \in inp.edges : OnCycle(inp, e) => \E b \in Bodies(g) : {e[1], e[2]} \subseteq Content(b)
 
-Verdict(o) == IF ~SubsWellFormed(o.nest) THEN "malformed"
-              ELSE IF ~AllAcyclic(o.nest) THEN "cycle-left"
-              ELSE IF ~AllSingleEntry(o.nest) THEN "entry"
-              ELSE IF ~Partition(o.input, o.nest) THEN "partition"
-              ELSE IF ~CyclesInside(o.input, o.nest) THEN "cycle-outside-loop"
-              ELSE "ok"
+\* every violated invariant is named (a nesting that is malformed in one respect may be wrong in another too)
+Verdict(o) == LET wf == SubsWellFormed(o.nest)
+                  bad == (IF wf THEN {} ELSE {"malformed"})
+                         \cup (IF AllAcyclic(o.nest) THEN {} ELSE {"cycle-left"})
+                         \cup (IF AllSingleEntry(o.nest) THEN {} ELSE {"entry"})
+                         \cup (IF Partition(o.input, o.nest) THEN {} ELSE {"partition"})
+                         \cup (IF CyclesInside(o.input, o.nest) THEN {} ELSE {"cycle-outside-loop"})
+              IN bad
 
 Init == i \in 1..Len(Obs)
 Next == FALSE /\ UNCHANGED vars
